@@ -33,6 +33,12 @@ add('C04',
     'Trusts ast.NodeTransformer dispatch and the ASDL docstrings of the running interpreter; comprehension clauses, with-items, parameter annotations and type parameters are the documented/out-of-class exceptions (one table line each). Does not count operators dynamically.',
     'DESIGN.md section 4, C04')
 
+add('C13',
+    'statement CFG of converted_call: min/max count of invocation actions per path, mandatory-edge (dominating decision) extraction turned into a boolean formula and checked against each documented policy row by truth table; argument-forwarding shape of every action; try/except structure of conversion vs execution; reaching definitions of the merged partial keywords; guard tables of is_unsupported/is_allowlisted; formula of Rule.matches',
+    'Decides, on every path of the call wrapper: exactly one target invocation with the wrapper\'s own (f, args, kwargs) (or the documented self-prepending / partial merge); conversion is reachable only through the negative outcome of each documented policy row and every positive outcome cannot reach it; conversion failures are caught and answered by the caching, warning fallback; execution failures only re-raise; partial keywords are merged into a fresh copy, stored positionals first; options default from the caller scope; allow-list rules match whole dotted components, first match wins.',
+    'Trusts the inspect / functools predicates to classify callables as documented; does not decide classification of exotic callables at run time.',
+    'DESIGN.md section 4, C13')
+
 NOT_APPLICABLE = {
     'C12': 'quantifies over run-time tracebacks, generated line layout and source-map contents, which exist only after the pipeline has run on a program; the only shape-level clause (exception re-creation table) is too small a part to claim the property through (DESIGN.md section 5)',
 }
